@@ -549,7 +549,12 @@ def check_C05(ctx):
     start = 0
     for attempt in range(50):
         build()
-        p = subprocess.run([WV] + args + ["start=%d" % start], stdout=subprocess.PIPE, stderr=subprocess.STDOUT, text=True, timeout=7200)
+        # the child may not take the machine down: an input that makes the parser allocate without bound dies on its own
+        # address-space limit (and is then recorded as a crash of that case)
+        def limit():
+            import resource
+            resource.setrlimit(resource.RLIMIT_AS, (12 << 30, 12 << 30))
+        p = subprocess.run([WV] + args + ["start=%d" % start], stdout=subprocess.PIPE, stderr=subprocess.STDOUT, text=True, timeout=7200, preexec_fn=limit)
         if p.returncode == 0:
             break
         done = sum(1 for _ in open(trace)) if os.path.exists(trace) else 0
